@@ -452,6 +452,8 @@ def reuse_worlds(tier):
     worlds.append(("count-exons", w1, ["--count_exons"]))
     # two BAM files of one experiment (file-name groups; the novel isoform is supported by reads of a single file)
     worlds.append(("two-bams", w1, ["SPLIT2", "--read_group", "file_name"]))
+    # read groups from a table file (the only grouping mode with files of its own next to the saved assignments)
+    worlds.append(("table-groups", w1, ["TABLE"]))
     if tier == "thorough":
         worlds.append(("no-models", w1, ["--no_model_construction"]))
         worlds.append(("pacbio", w2, ["--data_type", "pacbio_ccs"]))
@@ -471,6 +473,13 @@ def reuse_case(args):
     syn.plant_for_transcripts(world)
     paths = syn.materialise(world, d)
     out1 = os.path.join(d, "out1")
+    if "TABLE" in extra:
+        tbl = os.path.join(d, "groups.tsv")
+        with open(tbl, "w") as f:
+            for i, r in enumerate(world["reads"]):
+                if i % 4:
+                    f.write("%s\tg%d\n" % (r["name"], i % 3))
+        extra = [x for x in extra if x != "TABLE"] + ["--read_group", "file:" + tbl]
     argv1 = run.base_argv(paths, out1, extra=["--keep_tmp"] + [x for x in extra if x != "SPLIT2"])
     if "SPLIT2" in extra:
         seqs = syn.genome_sequences(world)
